@@ -601,26 +601,44 @@ fn value_to_f64(value: &Value) -> Option<f64> {
 
 /// Compare two values.
 /// Supports RDF values stored as strings by attempting numeric parsing.
+///
+/// Numbers and text that reads as a number compare by numeric value and sort before
+/// all other text, which compares lexicographically. Every pair of numbers and strings
+/// is therefore comparable, and MIN / MAX do not depend on the order of their input.
 fn compare_values(a: &Value, b: &Value) -> Option<std::cmp::Ordering> {
+    use std::cmp::Ordering;
     match (a, b) {
         (Value::Int64(a), Value::Int64(b)) => Some(a.cmp(b)),
         (Value::Float64(a), Value::Float64(b)) => a.partial_cmp(b),
         (Value::String(a), Value::String(b)) => {
             // Try numeric comparison first if both look like numbers
-            if let (Ok(a_num), Ok(b_num)) = (a.parse::<f64>(), b.parse::<f64>()) {
-                a_num.partial_cmp(&b_num)
-            } else {
-                Some(a.cmp(b))
+            match (a.parse::<f64>(), b.parse::<f64>()) {
+                (Ok(a_num), Ok(b_num)) => a_num.partial_cmp(&b_num),
+                (Ok(_), Err(_)) => Some(Ordering::Less),
+                (Err(_), Ok(_)) => Some(Ordering::Greater),
+                (Err(_), Err(_)) => Some(a.cmp(b)),
             }
         }
         (Value::Bool(a), Value::Bool(b)) => Some(a.cmp(b)),
         (Value::Int64(a), Value::Float64(b)) => (*a as f64).partial_cmp(b),
         (Value::Float64(a), Value::Int64(b)) => a.partial_cmp(&(*b as f64)),
         // String-to-numeric comparisons for RDF
-        (Value::String(s), Value::Int64(i)) => s.parse::<f64>().ok()?.partial_cmp(&(*i as f64)),
-        (Value::String(s), Value::Float64(f)) => s.parse::<f64>().ok()?.partial_cmp(f),
-        (Value::Int64(i), Value::String(s)) => (*i as f64).partial_cmp(&s.parse::<f64>().ok()?),
-        (Value::Float64(f), Value::String(s)) => f.partial_cmp(&s.parse::<f64>().ok()?),
+        (Value::String(s), Value::Int64(i)) => match s.parse::<f64>() {
+            Ok(num) => num.partial_cmp(&(*i as f64)),
+            Err(_) => Some(Ordering::Greater),
+        },
+        (Value::String(s), Value::Float64(f)) => match s.parse::<f64>() {
+            Ok(num) => num.partial_cmp(f),
+            Err(_) => Some(Ordering::Greater),
+        },
+        (Value::Int64(i), Value::String(s)) => match s.parse::<f64>() {
+            Ok(num) => (*i as f64).partial_cmp(&num),
+            Err(_) => Some(Ordering::Less),
+        },
+        (Value::Float64(f), Value::String(s)) => match s.parse::<f64>() {
+            Ok(num) => f.partial_cmp(&num),
+            Err(_) => Some(Ordering::Less),
+        },
         _ => None,
     }
 }
@@ -1523,5 +1541,31 @@ mod tests {
         let result = agg.next().unwrap().unwrap();
         let avg = result.column(0).unwrap().get_float64(0).unwrap();
         assert_eq!(avg, (big + 2) as f64 / 3.0);
+    }
+
+    fn any_column_chunk(values: &[Value]) -> DataChunk {
+        let mut builder = DataChunkBuilder::new(&[LogicalType::Any]);
+        for v in values {
+            builder.column_mut(0).unwrap().push_value(v.clone());
+            builder.advance_row();
+        }
+        builder.finish()
+    }
+
+    #[test]
+    fn test_min_max_of_mixed_kinds_ignore_input_order() {
+        let one = Value::Int64(1);
+        let text = Value::String("a".into());
+        for input in [[one.clone(), text.clone()], [text.clone(), one.clone()]] {
+            let mock = MockOperator::new(vec![any_column_chunk(&input)]);
+            let mut agg = SimpleAggregateOperator::new(
+                Box::new(mock),
+                vec![AggregateExpr::min(0), AggregateExpr::max(0)],
+                vec![LogicalType::Any, LogicalType::Any],
+            );
+            let result = agg.next().unwrap().unwrap();
+            assert_eq!(result.column(0).unwrap().get_value(0), Some(one.clone()));
+            assert_eq!(result.column(1).unwrap().get_value(0), Some(text.clone()));
+        }
     }
 }
